@@ -275,7 +275,7 @@ func run(c *runner.Ctx) {
 	if !c.Thorough() {
 		m3 = nil
 		for i, f := range menu {
-			if i%3 == 0 || strings.HasPrefix(f.Shape, "F13") || strings.HasPrefix(f.Shape, "F11") || strings.HasPrefix(f.Shape, "D") {
+			if i%2 == 0 || strings.HasPrefix(f.Shape, "F13") || strings.HasPrefix(f.Shape, "F11") || strings.HasPrefix(f.Shape, "D") {
 				m3 = append(m3, f)
 			}
 		}
@@ -299,7 +299,7 @@ func run(c *runner.Ctx) {
 	c.Space("cli-repeat")
 	for i, f := range menu {
 		for j, g := range menu {
-			if !c.Thorough() && (i*len(menu)+j)%4 != 0 {
+			if !c.Thorough() && (i*len(menu)+j)%2 != 0 {
 				continue
 			}
 			if !c.Take() {
@@ -322,8 +322,8 @@ func run(c *runner.Ctx) {
 			pick = append(pick, i)
 		}
 	}
-	if !c.Thorough() && len(pick) > 10 {
-		pick = pick[:10]
+	if !c.Thorough() && len(pick) > 16 {
+		pick = pick[:16]
 	}
 	for _, i := range pick {
 		src, _ := mkFile([]inject.FieldVariant{menu[i], menu[(i+7)%len(menu)]}, i%2 == 0)
